@@ -1,7 +1,7 @@
 //@ assume: LeafSet / DataFile / PruneList / croaring::Bitmap are abstract: LeafSet::rewind(cutoff, rm) == (old restricted to <= cutoff) UNION rm (PROVED on the real code in C02/leaf_set); DataFile::rewind(pos) moves the file's logical end (C06/append_only_file); PruneList::get_shift / get_leaf_shift are the prefix sums PROVED in C08/prune_list; pmmr::n_leaves is proved in C07/pmmr_arith; Bitmap offers clone and remove_range (a sub-bitmap) so that a variant which filters the add-back set is decided. The shifts never exceed the positions they apply to (`fits`: precondition; true for a well-formed prune list since compacted subtrees lie below the position).
 //@ assume: T5: `impl<T: PMMRable> Backend<T> for PMMRBackend<T>` => inherent method of the abstract back end
 //@ assume: decided here (C02 / C08, rewinding an MMR back end during a reorganisation): PMMRBackend::rewind(position, rewind_rm_pos) on a prunable back end rewinds the leaf set with EXACTLY the given add-back positions -- every output spent by the blocks being undone is unspent again, including one sitting on the very position rewound to -- and moves the hash file to position - shift(position - 1) and the data file to n_leaves(position) - leaf_shift(position); a non-prunable back end leaves the leaf set alone.
-//@ assumed_items: 8
+//@ assumed_items: 9
 //@ fns: PMMRBackend::rewind
 #[verifier::external_body]
 pub struct Bitmap { _p: u8 }
@@ -41,6 +41,9 @@ pub mod pmmr {
 }
 pub struct PMMRBackend { pub prunable: bool, pub leaf_set: LeafSet, pub hash_file: DataFile, pub data_file: DataFile, pub prune_list: PruneList }
 impl PMMRBackend {
+    /// offered (not used by the pinned text of rewind): the unpruned size says nothing about which leaves a rewind must restore
+    #[verifier::external_body]
+    pub fn unpruned_size(&self) -> (r: u64) { unimplemented!() }
 //@ extract store/src/pmmr.rs :: impl Backend for PMMRBackend::rewind
 //@   requires:
 //@+    // the shifts never exceed what they are subtracted from
